@@ -1,0 +1,47 @@
+//go:build verif
+
+package routing
+
+import "github.com/dtn7/dtn7-go/pkg/bpv7"
+
+// verifSprayInner returns the routing algorithm beneath any sensor-mule overlays.
+func (c *Core) verifSprayInner() Algorithm {
+	a := c.routing
+	for {
+		m, ok := a.(*SensorNetworkMuleRouting)
+		if !ok {
+			return a
+		}
+		a = m.algorithm
+	}
+}
+
+// VerifSprayMetaInner is VerifSprayMeta for a spray algorithm that may be wrapped by the sensor-mule overlay.
+func (c *Core) VerifSprayMetaInner(id bpv7.BundleID) (remaining uint64, sent []bpv7.EndpointID, ok bool) {
+	var md sprayMetaData
+	switch a := c.verifSprayInner().(type) {
+	case *SprayAndWait:
+		a.dataMutex.RLock()
+		md, ok = a.bundleData[id]
+		a.dataMutex.RUnlock()
+	case *BinarySpray:
+		a.dataMutex.RLock()
+		md, ok = a.bundleData[id]
+		a.dataMutex.RUnlock()
+	}
+	if ok {
+		remaining = md.remainingCopies
+		sent = append([]bpv7.EndpointID(nil), md.sent...)
+	}
+	return
+}
+
+// VerifSprayGCInner is VerifSprayGC for a spray algorithm that may be wrapped by the sensor-mule overlay.
+func (c *Core) VerifSprayGCInner() {
+	switch a := c.verifSprayInner().(type) {
+	case *SprayAndWait:
+		a.GarbageCollect()
+	case *BinarySpray:
+		a.GarbageCollect()
+	}
+}
